@@ -33,8 +33,8 @@ UNREACHABLE = ["SolverSparsePardiso (pypardiso missing)", "SolverSparseCholeskyS
                "SolverSparseCholeskyCVXOPT (cvxopt missing)"]
 FLOORS = {"quick": {"cases_held": 300, "solves_judged": 10000, "trans_T": 3000, "trans_H": 3000, "dependent_blocks": 2500,
                     "x0_solves": 2500, "mon_solve:CG": 1000, "multigrid_solves": 120},
-          "thorough": {"cases_held": 3000, "solves_judged": 100000, "trans_T": 30000, "trans_H": 30000,
-                       "dependent_blocks": 25000, "x0_solves": 25000, "mon_solve:CG": 10000, "multigrid_solves": 1500}}
+          "thorough": {"cases_held": 9000, "solves_judged": 300000, "trans_T": 90000, "trans_H": 90000,
+                       "dependent_blocks": 75000, "x0_solves": 75000, "mon_solve:CG": 30000, "multigrid_solves": 1500}}
 K2 = "auto-determine/abs-tolerance-classification-of-tiny-scaled-matrix"
 
 ALLC = matgen.ALL_CLASSES
@@ -56,7 +56,7 @@ TABLE = [
 
 
 def plan(tier, seed):
-    reps = 4 if tier == "quick" else 40
+    reps = 4 if tier == "quick" else 120
     cases = []
     for cfg, classes, storages in TABLE:
         for cls in classes:
